@@ -111,6 +111,23 @@ class Tree:
         if not os.environ.get('VERIF_NO_CANON'):
             from . import canon
             ref = canon.load_reference()
+            # how the code is cut into functions is not part of any property either: a function the reference tree does not
+            # have (a new helper) is read as part of its callers
+            self.inlined = {}
+            known_funcs = {}
+            try:
+                import json as _json
+                with open(os.path.join(os.path.dirname(os.path.abspath(__file__)), 'reference_functions.json')) as infile:
+                    known_funcs = _json.load(infile)
+            except OSError:
+                known_funcs = {}
+            if known_funcs and not os.environ.get('VERIF_NO_INLINE'):
+                from . import inline
+                for rel, mod in self.modules.items():
+                    n = inline.inline_new_helpers(mod.tree, known_funcs.get(rel))
+                    if n:
+                        set_parents(mod.tree)
+                        self.inlined[rel] = n
             canon.normalise_calls({rel: mod.tree for rel, mod in self.modules.items()})
             for rel, mod in self.modules.items():
                 canon.normalise_module(mod.tree)
@@ -590,3 +607,23 @@ def enum_members(tree, rel, clsnode):
             if val is not None:
                 res[node.targets[0].id] = val
     return res
+
+
+def function_statements(func):
+    ''' the simple statements, tests and loop heads of a function, each as a short digest of its syntax tree (canonical
+    spelling; independent of how a python version prints code), for shape comparison '''
+    out = []
+
+    def key(kind, node):
+        text = kind + ast.dump(node, annotate_fields=False, include_attributes=False)
+        return hashlib.md5(text.encode()).hexdigest()[:10]
+    for n in walk_local(func):
+        if isinstance(n, ast.stmt) and not isinstance(n, (ast.If, ast.For, ast.While, ast.Try, ast.With, ast.FunctionDef, ast.AsyncFunctionDef, ast.ClassDef)):
+            if isinstance(n, ast.Expr) and isinstance(n.value, ast.Constant) and isinstance(n.value.value, str):
+                continue
+            out.append(key('s', n))
+        elif isinstance(n, (ast.If, ast.While)):
+            out.append(key('t', n.test))
+        elif isinstance(n, ast.For):
+            out.append(key('f', ast.Tuple(elts=[n.target, n.iter], ctx=ast.Load())))
+    return sorted(out)
